@@ -36,7 +36,7 @@ ASSUMPTIONS = [
     "list sources cannot carry a fault; the baseline then uses the one-shot sync iterator flavour",
 ]
 
-SRC_FL = ["list", "seq", "iter", "agen", "aclass", "aplain", "tuple", "tuplesub", "aeager", "aeagerstop", "reiter", "areiter", "aproxy"]
+SRC_FL = ["list", "ringlist", "seq", "iter", "agen", "aclass", "aplain", "tuple", "tuplesub", "aeager", "aeagerstop", "reiter", "areiter", "aproxy"]
 FN_FL = ["def", "async", "partial", "obj", "objaw", "falsyobj", "eqobj", "unhashobj", "aeqobj", "gencoro", "classaw", "defcoro", "defcoro"]
 ASYNC_SRC = {"agen", "aclass", "aplain", "aeager", "aeagerstop", "areiter", "aproxy"}
 ALL = ITER_TOOLS + AGG_TOOLS
@@ -87,12 +87,12 @@ def apply_assign(case, assign):
     nsrc = len(c["srcs"])
     for i, s in enumerate(c["srcs"]):
         fl = assign["src"][i]
-        if fl in ("list", "tuple", "tuplesub") and s.get("fault"):
+        if fl in ("list", "tuple", "tuplesub", "ringlist") and s.get("fault"):
             fl = "iter"
         s["fl"] = fl
     if TOOLS[c["tool"]].outer:
         fl = assign["src"][nsrc]
-        if fl in ("list", "tuple", "tuplesub") and c["params"]["outer"].get("fault"):
+        if fl in ("list", "tuple", "tuplesub", "ringlist") and c["params"]["outer"].get("fault"):
             fl = "iter"
         c["params"]["outer"]["fl"] = fl
     for (role, spec), fl in zip(sorted(c["fns"].items()), assign["fn"]):
